@@ -16,6 +16,19 @@ def harnessRegistry : Registry :=
       | ['s', '_', p] => tyOf p
       | _ => none }
 
+/-- registrations a case makes itself: "R <name> <consumes> <produces>" / "RS <name> <produces>" in front of "cfg";
+the latest registration of a name is the one in force -/
+def tyOfS (s : String) : Option Ty := match s.toList with | [c] => tyOf c | _ => none
+
+def withRegs : Registry → List String → Option (Registry × List String)
+  | r, "R" :: name :: c :: p :: rest =>
+    match tyOfS c with
+    | some ct => withRegs { r with node := fun n => if n == name then some ⟨ct, tyOfS p⟩ else r.node n } rest
+    | none => none
+  | r, "RS" :: name :: p :: rest =>
+    withRegs { r with source := fun n => if n == name then tyOfS p else r.source n } rest
+  | r, toks => some (r, toks)
+
 def unT (s : String) : String := if s == "~" then "" else s
 
 mutual
@@ -38,8 +51,8 @@ def parseNodes : Nat → Nat → List String → Option (List Node × List Strin
     pure (c :: cs, r2)
 end
 
-def parseCfg (s : String) : Option Cfg :=
-  match words s with
+def parseCfg (toks : List String) : Option Cfg :=
+  match toks with
   | "cfg" :: src :: tr :: to :: nr :: rest => do
     let to ← to.toInt?; let nr ← nr.toNat?
     let (ns, left) ← parseNodes (rest.length + 2) nr rest
@@ -69,10 +82,9 @@ def countL : List Node → Nat
 end
 
 def check (input impl : String) : Verdict :=
-  match parseCfg input with
+  match (withRegs harnessRegistry (words input)).bind (fun (r, toks) => (parseCfg toks).map (fun c => (r, c))) with
   | none => { model := "bad-input" }
-  | some c =>
-    let r := harnessRegistry
+  | some (r, c) =>
     let (res, c') := read r c
     let model := render res c'
     let cons := consistent r c
@@ -93,6 +105,7 @@ def check (input impl : String) : Verdict :=
       (if (spines (defaultsL c.nodes)).Nodup then ["dup-off-spine"] else ["dup-on-spine"])
     { model := model, spec := sp,
       tags := [match res with | .ok => "accept" | .reject => "reject" | .crash => "crash"] ++ dupKind ++
-              (if cons then ["consistent"] else ["inconsistent"]) ++ (if countL c.nodes > 6 then ["big-tree"] else []) }
+              (if cons then ["consistent"] else ["inconsistent"]) ++ (if countL c.nodes > 6 then ["big-tree"] else []) ++
+              (if input.startsWith "R" then ["registered-again"] else []) }
 
 end Firebolt.Config
